@@ -34,7 +34,15 @@ Elem ==
     Lonely  |-> [kind |-> "message", parent |-> "", pkg |-> "pkg"],
     OptMsg  |-> [kind |-> "message", parent |-> "", pkg |-> "opts"],
     msg_opt |-> [kind |-> "extension", parent |-> "", pkg |-> "opts"],
-    field_opt |-> [kind |-> "extension", parent |-> "", pkg |-> "opts"] ]
+    field_opt |-> [kind |-> "extension", parent |-> "", pkg |-> "opts"],
+    \* a second user of field_opt in another file; a user of the nested enum Detail.Kind; an option
+    \* carrying a google.protobuf.Any whose payload (type URL with a path prefix) is Payload
+    WithOpt2 |-> [kind |-> "message", parent |-> "", pkg |-> "pkg"],
+    UsesKind |-> [kind |-> "message", parent |-> "", pkg |-> "pkg"],
+    Payload  |-> [kind |-> "message", parent |-> "", pkg |-> "pkg"],
+    Holder   |-> [kind |-> "message", parent |-> "", pkg |-> "opts"],
+    any_opt  |-> [kind |-> "extension", parent |-> "", pkg |-> "opts"],
+    WithAny  |-> [kind |-> "message", parent |-> "", pkg |-> "pkg"] ]
 E == DOMAIN Elem
 Packages == {"pkg", "opts"}
 \* fields of messages: <<field name, referenced element or "">>
@@ -43,14 +51,19 @@ Fields ==
     Detail |-> {<<"s", "">>, <<"inner", "Inner">>, <<"kind", "Kind">>}, Inner |-> {<<"i", "">>},
     Unrelated |-> {<<"u", "">>, <<"m", "MapVal">>, <<"in", "In">>, <<"out", "Out">>},
     MapVal |-> {<<"v", "">>}, Ext |-> {}, ExtVal |-> {<<"e", "">>}, WithOpt |-> {<<"w", "">>}, Lonely |-> {<<"l", "">>},
-    OptMsg |-> {<<"note", "">>} ]
+    OptMsg |-> {<<"note", "">>},
+    WithOpt2 |-> {<<"w2", "">>}, UsesKind |-> {<<"k", "Kind">>}, Payload |-> {<<"p", "">>},
+    Holder |-> {<<"extra", "">>}, WithAny |-> {<<"a", "">>} ]
 Messages == DOMAIN Fields
 \* methods: input, output
 MethodIO == [Get |-> <<"In", "Out">>, Other |-> <<"Unrelated", "MapVal">>]
 \* extensions: extendee ("" = a descriptor.proto options message), value type ("" = scalar)
-ExtInfo == [ext_field |-> <<"Ext", "ExtVal">>, msg_opt |-> <<"", "OptMsg">>, field_opt |-> <<"", "">>]
+ExtInfo == [ext_field |-> <<"Ext", "ExtVal">>, msg_opt |-> <<"", "OptMsg">>, field_opt |-> <<"", "">>, any_opt |-> <<"", "Holder">>]
 \* custom options used by elements
-UsesOptions == [e \in E |-> IF e = "WithOpt" THEN {"msg_opt", "field_opt"} ELSE {}]
+UsesOptions == [e \in E |-> IF e = "WithOpt" THEN {"msg_opt", "field_opt"} ELSE IF e = "WithOpt2" THEN {"field_opt"}
+                              ELSE IF e = "WithAny" THEN {"any_opt"} ELSE {}]
+\* message types carried as google.protobuf.Any payloads inside the option values of an element
+AnyPayloads == [e \in E |-> IF e = "WithAny" THEN {"Payload"} ELSE {}]
 Children(e) == {c \in E : Elem[c].parent = e}
 RECURSIVE Descendants(_)
 Descendants(e) == Children(e) \cup UNION {Descendants(c) : c \in Children(e)}
@@ -97,6 +110,7 @@ Needs(e) ==
   \cup (IF k = "method" THEN {MethodIO[e][1], MethodIO[e][2]} ELSE {})
   \cup (IF k = "extension" THEN {x \in {ExtInfo[e][1], ExtInfo[e][2]} : x # ""} ELSE {})
   \cup (IF customOptions THEN {o \in UsesOptions[e] : ~ExtDropped(o)} ELSE {})
+  \cup (IF customOptions /\ \A o \in UsesOptions[e] : ~ExtDropped(o) THEN {x \in AnyPayloads[e] : x \notin X} ELSE {})
 RECURSIVE Close(_)
 Close(S) == LET T == S \cup UNION {Needs(e) : e \in S} IN IF T = S THEN S ELSE Close(T)
 KeptStart == {e \in Roots : ~(Elem[e].kind = "method" /\ MethodDropped(e)) /\ ~(Elem[e].kind = "extension" /\ ExtDropped(e))}
